@@ -200,6 +200,60 @@ def run(ctx):
                                   'keeps the source start time' % gt[0].func.value.id))
         else:
             ctx.undec('R-TIMESRC', norm(d)[:70], where, 'source of the new start time not recognised')
+    # ---- wrapper classification of selector kinds agrees with the base method (numpy integers are integers)
+    from . import c02
+    ctx.rule('R-KINDS', 'the wrapper classifies selector kinds (int, numpy int, slice, sequence) exactly like the base method')
+    isarr = None
+    for st in iter_stmts(fn.body):
+        if isinstance(st, ast.Assign) and norm(st.targets[0]) == 'isarray' and isinstance(st.value, ast.DictComp):
+            isarr = st.value
+    if isarr is None:
+        ctx.undec('R-KINDS', 'isarray', where, 'wrapper has no kind classification')
+    else:
+        v = isarr.generators[0].target.elts[1].id
+        part = dict((k, c02.abs_pred(isarr.value, k, v)) for k in c02.KINDS)
+        if None in part.values():
+            ctx.undec('R-KINDS', 'isarray', where, 'predicate not understood: %s' % norm(isarr.value))
+        elif part == {'INT': False, 'NPINT': False, 'SLICE': False, 'SEQ': True}:
+            ctx.ok('R-KINDS', 'isarray', where, 'int/numpy int/slice are not arrays; sequences are')
+        else:
+            ctx.violation(Finding('R-KINDS', RP, Q, api.stmt_of(isarr), 'the wrapper classifies selector kinds as %s: a numpy integer (or other scalar) is treated as an index array, so with ROW and COL '
+                                  'both given that way the origin update is skipped and the dimensions are deleted' % part))
+    # ---- the step encoded into TSTEP: HHMMSS = hours*10000 + minutes*100 + seconds
+    ctx.rule('R-HMSENC', 'a time built arithmetically from seconds is hours*10000 + minutes*100 + seconds')
+    for st in iter_stmts(fn.body):
+        if isinstance(st, ast.Assign) and isinstance(st.targets[0], ast.Attribute) and st.targets[0].attr in ('TSTEP', 'STIME', 'ETIME') \
+                and isinstance(st.value, ast.Call) and dotted(st.value.func) == 'int' and "strftime('%H%M%S')" in norm(st.value):
+            ctx.ok('R-HMSENC', norm(st)[:60], where, "HHMMSS text from strftime('%H%M%S')")
+        if isinstance(st, ast.Assign) and isinstance(st.targets[0], ast.Attribute) and st.targets[0].attr in ('TSTEP', 'STIME', 'ETIME') \
+                and isinstance(st.value, ast.BinOp) and isinstance(st.value.op, ast.Add):
+            terms = []
+            def flat(e):
+                if isinstance(e, ast.BinOp) and isinstance(e.op, ast.Add):
+                    flat(e.left); flat(e.right)
+                else:
+                    terms.append(e)
+            flat(st.value)
+            bad = []
+            for t_ in terms:
+                tx = norm(t_).replace('(', '').replace(')', '')
+                unit = 'h' if '// 3600' in tx else ('m' if ('% 3600 // 60' in tx or '// 60 % 60' in tx) else ('s' if '% 60' in tx else None))
+                mult = 1
+                if isinstance(t_, ast.BinOp) and isinstance(t_.op, ast.Mult) and isinstance(t_.right, ast.Constant):
+                    mult = t_.right.value
+                want = {'h': 10000, 'm': 100, 's': 1}.get(unit)
+                if unit is None:
+                    bad = None
+                    break
+                if mult != want:
+                    bad.append((tx, unit, mult, want))
+            if bad is None:
+                ctx.undec('R-HMSENC', norm(st)[:60], where, 'terms not recognised as hour/minute/second parts')
+            elif bad:
+                ctx.violation(Finding('R-HMSENC', RP, Q, st, 'the %s part (%s) is multiplied by %s instead of %s: a step with minutes is written as a wrong HHMMSS value' % (
+                    {'h': 'hours', 'm': 'minutes', 's': 'seconds'}[bad[0][1]], bad[0][0], bad[0][2], bad[0][3])))
+            else:
+                ctx.ok('R-HMSENC', norm(st)[:60], where, 'hours*10000 + minutes*100 + seconds')
     ctx.floor('georeferencing handlers', len(handlers), 4)
     ctx.assumptions.append('np.arange(n)[selector] resolves negative integers and slices against length n (numpy indexing)')
 
@@ -232,6 +286,15 @@ def lay_rules(ctx, fn, h, where):
                         lidx_bound = to_poly(ar[0].args[0], env, atomize=_atom)
                 else:
                     env[nm] = to_poly(s.value, env, atomize=_atom)
+        if lidx_bound is None and stores:
+            # every definition of the index that subscripts VGLVLS must be normalised against the layer count
+            ldefs = [s2 for s2 in iter_stmts(h.body) if isinstance(s2, ast.Assign) and isinstance(s2.targets[0], ast.Name) and s2.targets[0].id == 'lidx']
+            raw = [d for d in ldefs if not any(tok in norm(d.value) for tok in ('arange(', '.indices(', ' % ', 'np.where(', 'range('))]
+            if ldefs and raw:
+                ctx.rule('R-LAYNORM', 'the layer selector is resolved against the number of layers before it indexes the (one longer) edge array')
+                ctx.violation(Finding('R-LAYNORM', RP, Q, raw[0], 'the layer selector is used as given (%s): a negative integer then indexes VGLVLS, which has one more entry than '
+                                      'there are layers, from its end, and the window gets the edges of another layer' % norm(raw[0])[:60]))
+                return
         if lidx_bound is None or not stores:
             raise AnalysisError('construct not understood: LAY handler of ioapi_base.sliceDimensions')
         st = stores[0]
